@@ -115,4 +115,8 @@ var Registry = map[string]func(c *Ctx, arg string) error{
 		RunKVExec(c)
 		return nil
 	},
+	"based": func(c *Ctx, arg string) error {
+		RunBased(c)
+		return nil
+	},
 }
